@@ -131,6 +131,10 @@ type NGSetupChoice struct {
 	PLMNsBefore int `json:"plmns_before,omitempty"`
 	PLMNsAfter  int `json:"plmns_after,omitempty"`
 	BackupAMFName    string `json:"backup_amf_name,omitempty"` // optional field of ServedGUAMIItem
+	// GUAMIOtherPLMN: the AMF identifies itself (Served GUAMI List, GUAMI of the Initial Context Setup Request) with
+	// the PLMN of ITS operator while it supports the gNB's PLMN (PLMN Support List) — an AMF shared between operators;
+	// the two lists are separate IEs for that reason. The gNB's PLMN stays what the gNB announced.
+	GUAMIOtherPLMN bool `json:"guami_of_another_plmn,omitempty"`
 }
 
 // Policy selects the property-specific checks (everything else is always on).
